@@ -5,10 +5,15 @@
 (* the scripted server did) and `o`, what the real QXmppClient +            *)
 (* QXmppRosterManager reported afterwards:                                  *)
 (*  {"e":"Push","from":"look1","items":[{"j":"c1","v":0}],                  *)
-(*   "o":{"view":{"c1":1,"c2":0,"c3":0},"extra":0,                          *)
+(*   "o":{"view":{"c1":{"x":1,"n":"n1","s":"both","a":"","ap":false,        *)
+(*                      "g":["g1"],"mx":false,"p":""},"c2":{"x":0,…},…},    *)
+(*        "extra":0,                                                        *)
 (*        "pres":{"c1":["r1"],"c2":[],"c3":[]},"recv":true,"sm":"new",      *)
 (*        "conn":true,"ack":0,"err":1,"sig":[],"req":0}}                    *)
-(*  view  getRosterBareJids()/getRosterEntry() decoded to item versions     *)
+(*  view  getRosterBareJids()/getRosterEntry(): every field of the entry    *)
+(*        (name, subscription, ask, approved, groups sorted, MIX channel    *)
+(*        flag, MIX participant-id), the same record shape as Roster's item;*)
+(*        the view comparison is over whole records                         *)
 (*  extra roster entries outside the universe of the run                    *)
 (*  pres  getResources() per contact (cross-checked with                    *)
 (*        getAllPresencesForBareJid())                                      *)
@@ -44,7 +49,7 @@ TInit ==
     /\ l = 1 /\ cid = "" /\ mon = Mon0 /\ viol = {} /\ ndiv = 0 /\ divs = <<>> /\ dflag = FALSE
     /\ ncases = 0 /\ naborts = 0
 
-Full(items) == [j \in Jids |-> IF j \in DOMAIN items THEN items[j] ELSE 0]
+Full(items) == [j \in Jids |-> IF j \in DOMAIN items THEN items[j] ELSE Absent]
 PresSets(p) == [j \in Jids |-> {p[j][i] : i \in 1..Len(p[j])}]
 
 (* model projection, in the shape of the logged observation *)
@@ -86,7 +91,7 @@ MonNext(m, ev) ==
         view  |-> o.view,
         pres  |-> PresSets(o.pres)]
 
-Contacts(n) == {j \in Jids : n.ref[j] # 0}
+Contacts(n) == {j \in Jids : n.ref[j].x # 0}
 
 Failed(m, n, ev) ==
     {p \in {"ViewIsRef", "PresIsLatest", "UnauthPush", "FreshSession"} :
